@@ -396,6 +396,22 @@ class Check:
         job["coverage"] = {k: v[1] for k, v in r.coverage.items()}
         return r
 
+    def proofs(self, names, timeout=420):
+        """Unbounded arguments (TLAPS / Apalache, bin/proofs) for the small specifications behind this property; thorough
+        tier only. A job that is not ok is a machinery problem (exit 2), never a finding about the code."""
+        cmd = [str(VERIF / "bin" / "proofs"), "--only", ",".join(names), "--timeout", str(timeout)]
+        r = subprocess.run(cmd, capture_output=True, text=True, timeout=timeout * 3 + 120)
+        jobs = []
+        for line in r.stdout.splitlines():
+            m = re.match(r"PROOF (\S+) (\S+) (\S+) (\S+) (\S+)", line)
+            if m:
+                jobs.append({"name": m.group(1), "tool": m.group(2), "status": m.group(3), "seconds": float(m.group(4)),
+                             "obligations": m.group(5)})
+        self.extra["unbounded_proofs"] = jobs
+        if r.returncode != 0 or len(jobs) != len(names) or any(j["status"] != "ok" for j in jobs):
+            raise MachineryError(f"bin/proofs {names}: rc={r.returncode}\n{r.stdout[-2000:]}\n{r.stderr[-2000:]}")
+        return jobs
+
     def models(self, jobs, parallel=4):
         """Run several model jobs concurrently. jobs: list of (module, cfg_name, kwargs). Returns results in order."""
         from concurrent.futures import ThreadPoolExecutor
